@@ -26,6 +26,7 @@ func propC10() *Property {
 			{ID: "C10.R5", Title: "the following page is first for a collection and next for a page, never the other way round", Floor: 2, Run: c10R5},
 			{ID: "C10.R6", Title: "harvesting reads the collection and never changes it", Floor: 1, Run: c10R6},
 			{ID: "C10.R7", Title: "the reader keeps the continuation (collection and offset) together", Floor: 2, Run: c10R7},
+			{ID: "C10.R8", Title: "a missing key and JSON null are the same 'absent' that ends a walk: accessors report absent exactly on those (same instances as C17.R4)", Floor: 30, Run: c17R4},
 		},
 	}
 }
